@@ -144,14 +144,15 @@ Definition do_unpark (s : state) (t : tid) : option state :=
 
 (* flush_async: send the signal; after the writer has gone the receiver is dropped, `send` fails, the
    signal (and its oneshot sender) is dropped at once and the future is ready immediately. *)
+Definition is_exited (p : wpc) : bool := match p with WExited => true | _ => false end.
+
 Definition do_flushreq (s : state) (t : tid) (w : wid) : option state :=
   let Sh := sh s in
   if (0 <? handles Sh) && negb (memN t (pend Sh)) && negb (memN w (map fst (freq (gh s)))) then
     let g := add_freq (gh s) (w, length (pushed (gh s))) in
-    match pc (wr s) with
-    | WExited => Some {| sh := set_pend Sh (pend Sh ++ [t]); wr := wr s; gh := add_out g [EWake w] |}
-    | _ => Some {| sh := set_pend (set_fch Sh (fch Sh ++ [w])) (pend Sh ++ [t]); wr := wr s; gh := g |}
-    end
+    if is_exited (pc (wr s))
+    then Some {| sh := set_pend Sh (pend Sh ++ [t]); wr := wr s; gh := add_out g [EWake w] |}
+    else Some {| sh := set_pend (set_fch Sh (fch Sh ++ [w])) (pend Sh ++ [t]); wr := wr s; gh := g |}
   else None.
 
 Definition do_clone (s : state) : option state :=
@@ -185,9 +186,10 @@ Definition do_junpark (s : state) : option state :=
   end.
 
 Definition do_jjoin (s : state) : option state :=
-  match jh (sh s), pc (wr s) with
-  | JUnparked, WExited => Some {| sh := set_jh (sh s) JJoined; wr := wr s; gh := gh s |}
-  | _, _ => None
+  match jh (sh s) with
+  | JUnparked => if is_exited (pc (wr s)) then Some {| sh := set_jh (sh s) JJoined; wr := wr s; gh := gh s |}
+                 else None
+  | _ => None
   end.
 
 (* ---------------------------------------------------------------- the writer thread *)
